@@ -4,7 +4,7 @@ from __future__ import annotations
 
 import ast
 
-from ..absint import NONE, ClassV, Const, DictV, ExcV, ListV, ObjV, Sym
+from ..absint import NONE, App, ClassV, Const, DictV, ExcV, ListV, ObjV, Sym
 from ..flow import FlowPolicy, exits, run_flow
 from ..repo import AnalysisError, body_walk, call_name, norm, short
 
@@ -426,10 +426,29 @@ ACQUIRE_CALLS = ("async_listen", "async_subscribe", "async_register")
 
 
 class _ListenerPolicy(FlowPolicy):
+    raced_applied = False  # a synchronous registration cannot be overtaken: the scenario then degenerates to the plain first subscriber
+    raced = None  # (heap key of the table, heap key of the handles, type, queue): what another subscriber did while the registration was awaited
+
     def call(self, interp, node, fname, fval, args, kwargs, cfg, out):
         if isinstance(fval, Sym) and fval.tag and fval.tag[0] == "handle":
             return [(cfg.emit(("call", "handle", fval.tag[1])), NONE)]
+        if isinstance(fval, App) and fval.op == "res" and fval.args and isinstance(fval.args[0], Const) and str(fval.args[0].v).split(".")[-1] in ACQUIRE_CALLS:
+            return [(cfg.emit(("call", "handle", "own")), NONE)]  # the un-listen handle this very call obtained
         return super().call(interp, node, fname, fval, args, kwargs, cfg, out)
+
+    def on_await(self, interp, node, cfg):
+        name = call_name(node.value) if isinstance(node.value, ast.Call) else None
+        pending = bool(name) and name.split(".")[-1] in ACQUIRE_CALLS
+        cfg = super().on_await(interp, node, cfg)
+        if pending and self.raced:
+            self.raced_applied = True
+            # the registration suspended this subscriber; meanwhile another one completed notify_add of the same type
+            tab_key, rem_key, typ, q = self.raced
+            tab, rem = cfg.heap.get(tab_key), cfg.heap.get(rem_key)
+            if isinstance(tab, DictV) and isinstance(rem, DictV) and tab.get(Const(typ)) is None:
+                cfg = cfg.hset(tab_key, DictV(list(tab.items) + [(Const(typ), _set(q))]))
+                cfg = cfg.hset(rem_key, DictV(list(rem.items) + [(Const(typ), Sym(("handle", "other")))]))
+        return cfg
 
 
 def _set(*qs):
@@ -450,9 +469,15 @@ def listener_table(ctx, program, rid):
         ("non-subscriber leaves", {"t": ["q1"]}, "del", "t", "q0", 0, [], {"t": ["q1"]}),
         ("unknown type", {}, "del", "t", "q0", 0, [], {}),
         ("last subscriber leaves, other type stays", {"t": ["q0"], "u": ["q2"]}, "del", "t", "q0", 0, ["t"], {"u": ["q2"]}),
+        # two cooperating subscribers: while this one's registration is awaited, another task completes notify_add of the same type (queue q1, handle 'other').
+        # Exactly one registration may remain: one of the two handles is released and the other one is the one kept for the type.
+        ("first subscriber overtaken during the registration", {}, "add-raced", "t", "q0", 1, None, {"t": ["q0", "q1"]}),
+        ("first subscriber overtaken during the registration, other type present", {"u": ["q2"]}, "add-raced", "t", "q0", 1, None, {"u": ["q2"], "t": ["q0", "q1"]}),
     ]
     for cls, rel in LISTENER_CLASSES:
         for label, before, op, typ, q, n_acq, handles, after in cases:
+            raced = op == "add-raced"
+            op = "add" if raced else op
             uid = f"{rel}::{cls}.notify_{op}"
             fn = program.func(uid)
             params = [a.arg for a in fn.args.args]
@@ -461,10 +486,15 @@ def listener_table(ctx, program, rid):
             heap = {f"{cls}.notify": DictV([(Const(t), _set(*qs)) for t, qs in before.items()]),
                     f"{cls}.notify_remove": DictV([(Const(t), H(t)) for t in before]), f"{cls}.hass": Sym(("hass",))}
             args = {"cls": ClassV(cls), params[1]: Const(typ), "queue": Const(q)}
+            if raced:
+                pol.raced = (f"{cls}.notify", f"{cls}.notify_remove", typ, "q1")
             pol.track_aliases = True  # the subscriber set of a type read into a local is still the element of the table
             out = run_flow(program, uid, pol, args=args, heap=heap)
             bad = None
             n = 0
+            if raced and not pol.raced_applied:
+                raced, after = False, {t: [x for x in qs if x != "q1"] for t, qs in after.items()}
+                handles = []
             for kind, c, desc in exits(out):
                 n += 1
                 if kind != "return":
@@ -479,6 +509,16 @@ def listener_table(ctx, program, rid):
                 rem_keys = sorted(k.v for k, v in rem.items if v != NONE) if isinstance(rem, DictV) else repr(rem)
                 if acq != n_acq:
                     bad = f"{acq} registration(s) with Home Assistant, expected {n_acq}"
+                elif raced:
+                    kept = rem.get(Const(typ)) if isinstance(rem, DictV) else None
+                    kept = kept.tag[1] if isinstance(kept, Sym) and kept.tag and kept.tag[0] == "handle" else ("own" if isinstance(kept, App) and kept.op == "res" else repr(kept))
+                    if sorted(called + [kept]) != ["other", "own"]:
+                        bad = (f"two registrations of the type exist (this subscriber's and the one another subscriber made during the await); released: {called}, kept for the type: {kept!r} - "
+                               f"exactly one of them has to be released and the other kept, or every message is delivered twice and one registration is never released")
+                    elif got_tab != want_tab:
+                        bad = f"subscriber table becomes {got_tab}, expected {want_tab} (the subscriber that registered during the await is lost)"
+                    elif rem_keys != sorted(after):
+                        bad = f"un-listen handles kept for {rem_keys}, expected {sorted(after)}"
                 elif called != handles:
                     bad = f"un-listen handles called: {called}, expected {handles}"
                 elif got_tab != want_tab:
@@ -486,7 +526,7 @@ def listener_table(ctx, program, rid):
                 elif rem_keys != sorted(after):
                     bad = f"un-listen handles kept for {rem_keys}, expected {sorted(after)}"
             ctx.check(n > 0 and bad is None, rid, uid, f"{cls}.notify_{op}: {label}",
-                      msg=f"{cls}.notify_{op}({typ!r}, {q}) on subscriber table {before}: {bad or 'no exit'} - a listener that outlives its last subscriber (or a missing one) "
+                      msg=f"{cls}.notify_{op}({typ!r}, {q}) on subscriber table {before}{' with notify_add(' + repr(typ) + ', q1) of another task completing during the registration await' if raced else ''}: {bad or 'no exit'} - a listener that outlives its last subscriber (or a missing one) "
                       f"makes every later occurrence start zero or several runs per trigger", key=f"{cls} {op} {label}", node=fn, rel=rel)
 
 
